@@ -3,7 +3,9 @@
 //! Every function here is a thin wrapper that calls an existing private function and nothing else; none of
 //! them is used by the library itself.
 
+pub use crate::crypto::verif_hooks::*;
 pub use crate::network::connection_manager_hooks::*;
+pub use crate::network::peer_hooks::*;
 pub use crate::network::wire_hooks::*;
 
 use crate::{types::HeaderMap, Request, Response};
